@@ -144,6 +144,7 @@ Definition demo_contexts : gmap string (list redef) :=
 Definition demo_decl : decl := mkdecl demo_systems demo_contexts (Some "mks").
 Definition demo_tk (s : string) : option (list (string * Qc)) := Some [(s, 1%Qc)].
 Definition smoot : udef := mkud "smoot" (Some "smt") [] 67 1 [("inch", 1%Qc)] false.
+Definition am : udef := mkud "am" None [] 5 1 [("second", 1%Qc)] false.
 Definition answers_eqb (a b : list answer) : bool :=
   Nat.eqb (length a) (length b) && forallb (λ xy : answer * answer, answer_eqb xy.1 xy.2) (zip a b).
 
